@@ -10,17 +10,31 @@ RULE = (
     "corpus (witnesses of past findings) first; then seeded contexts: pick an assignment of sizes to names a,b,d (c,e derived) and tuples to "
     "groups g,h, pick 1-4 annotated tensors over a 24-form dimension alphabet (literal, name, name=literal, name=expression, expression, "
     "..., *name), derive conforming arrays in numpy/torch/jax, apply 0-2 perturbations (axis resized, inserted, dropped, dtype swapped, "
-    "value None/non-array, provider value changed, the array object of another position passed again); tuples, optionals, return phase and provider scopes mixed in. "
+    "value None/non-array, provider value changed, the array object of another position passed again); tuples, optionals, return phase and provider scopes mixed in; a quarter of the contexts also as calls of a dltyped function (every call style, trailing parameters left at their default value). "
     "non-trivial = distinct operation line with >=1 annotated array that passed the rank test of its first tensor"
 )
 
 
 def cases(tier, rng, run):
-    return ctxcommon.ctx_cases(run, tier, 25000, 400000)
+    import gen_ctx
+    from checks import callcommon  # noqa: F401  (registers the CALL handler)
+    from framework import Case
+
+    out = ctxcommon.ctx_cases(run, tier, 25000, 400000)
+    # the same kind of context presented as a CALL of a dltyped function (all call styles, trailing parameters left at their default)
+    for _ in range(6000 if tier == "quick" else 100000):
+        c = gen_ctx.gen_ctx(rng)
+        out.append(Case(c.call_line("func", rng.choice(["pos", "kw", "mixed", "kwonly", "posonly"]), omit=rng.choice([0, 0, 1, 2, 3])), "call", {"ctx": c}))
+    return out
 
 
 def judge(case, impl_out, spec):
-    if not impl_out.startswith("accept"):
+    if case.line.startswith("CALL"):
+        from checks import callcommon
+
+        if callcommon.end_of(impl_out) != "ok" or impl_out.startswith("identity"):
+            return None
+    elif not impl_out.startswith("accept"):
         return None
     sp = ctxcommon.spec_of(case)
     if sp is None:
